@@ -1967,7 +1967,7 @@ class Preprocess(object):
         if not node.cxx_template:
             check_return_pointer(node, node.ast)
 
-        options = self.newlibrary.options
+        options = node.options
         # XXX - not sure if result uses any of these attributes.
 #        typemap.set_buf_variable_names(
 #            options, node.ast.attrs, "aaa")
